@@ -78,9 +78,14 @@ class ExprMixin:
             return SV(ty, T.atom_const(ty, sv.t.as_string()))
         if isinstance(ty, T.List) and sv.ty == Display:
             arr = fresh_sort("elems", z3.ArraySort(z3.IntSort(), T.sort_of(ty.t)))
+            elems = []
             for i, e in enumerate(sv.t):
-                arr = z3.Store(arr, i, self.coerce(e, ty.t).t)
-            return SV(ty, T.list_mk(ty, I(len(sv.t)), arr))
+                elems.append(self.coerce(e, ty.t).t)
+                arr = z3.Store(arr, i, elems[-1])
+            v = T.list_mk(ty, I(len(sv.t)), arr)
+            if ty.t == T.Str:     # "".join of a display is the concatenation of its elements
+                self.pending_facts.append(self.joined(v) == (S("") if not elems else (elems[0] if len(elems) == 1 else z3.Concat(*elems))))
+            return SV(ty, v)
         if isinstance(ty, T.Set) and sv.ty == Display:
             s = z3.K(T.sort_of(ty.k), z3.BoolVal(False))
             for e in sv.t: s = z3.Store(s, self.coerce(e, ty.k).t, z3.BoolVal(True))
@@ -101,7 +106,9 @@ class ExprMixin:
 
     def empty(self, ty):
         if isinstance(ty, T.List):
-            return SV(ty, T.list_mk(ty, I(0), fresh_sort("noelems", z3.ArraySort(z3.IntSort(), T.sort_of(ty.t)))))
+            v = T.list_mk(ty, I(0), fresh_sort("noelems", z3.ArraySort(z3.IntSort(), T.sort_of(ty.t))))
+            if ty.t == T.Str: self.pending_facts.append(self.joined(v) == S(""))      # "".join([]) == ""
+            return SV(ty, v)
         if isinstance(ty, T.Dict):
             return SV(ty, T.dict_mk(ty, z3.K(T.sort_of(ty.k), z3.BoolVal(False)), fresh_sort("novals", z3.ArraySort(T.sort_of(ty.k), T.sort_of(ty.v)))))
         if isinstance(ty, T.Set):
@@ -312,6 +319,8 @@ class ExprMixin:
             for p, x in zip(parts[1:], args):
                 out.append(self.to_str(st, x).t); out.append(S(p))
             return SV(T.Str, z3.Concat(*out) if len(out) > 1 else out[0])
+        if name == "join" and args and args[0].ty == T.List(T.Str) and is_pystr(recv) and recv.t.as_string() == "":
+            return SV(T.Str, self.joined(args[0].t))
         if name == "join" and args and args[0].ty == Display:
             items = [self.coerce(x, T.Str).t for x in args[0].t]
             out = []
